@@ -51,7 +51,7 @@ def main():
         "setup_cmd": "./setup.sh",
         "hooks": {
             "guard": "none: no hook is committed to /repo; seams are inserted into a scratch copy at build time by /verif/simgen",
-            "enable": "./check copies /repo's working tree to /var/tmp/verif-scratch, runs bin/simgen on the copy (packages ., util, html, html/core) and builds the harness against it with go1.26.8 -race",
+            "enable": "./check copies /repo's working tree to /var/tmp/verif-scratch, runs bin/simgen on the copy (packages ., util, html, html/core, q) and builds the harness against it with go1.26.8 -race",
             "baseline_off_cmd": "cd /repo && go test -vet=off -count=1 ./...",
             "source_commits": [],
             "add_only": True,
